@@ -498,9 +498,58 @@ type c19Bad struct{}
 
 func (c19Bad) MarshalJSON() ([]byte, error) { return nil, fmt.Errorf("boom") }
 
+// Types whose (un)marshaling fails in the middle of a struct, after a field tag
+// (`string`, `format`) has temporarily changed the option struct that is passed down.
+type c19Tagged struct {
+	N int    `json:"n,string"`
+	B c19Bad `json:"b,string"`
+	Z int    `json:"z"`
+}
+type c19TaggedLast struct {
+	A int    `json:"a"`
+	B c19Bad `json:"b,string"`
+}
+type c19TaggedNested struct {
+	X []c19Tagged          `json:"x"`
+	M map[string]c19Tagged `json:"m"`
+}
+type c19FormatTagged struct {
+	D []byte `json:"d,format:base64"`
+	B c19Bad `json:"b,format:base64"`
+}
+type c19inner struct {
+	N int `json:"n,string"`
+	Q int `json:"q"`
+}
+type c19EmbedNil struct { // unmarshal cannot allocate the embedded pointer to an unexported struct type
+	*c19inner
+	M int `json:"m"`
+}
+type c19UnmTagged struct {
+	N int     `json:"n,string"`
+	F float64 `json:"f,string"`
+	S string  `json:"s"`
+}
+
 func c19Scoped(c *Ctx) {
 	ctors := c19Ctors()
-	n := c.N(2000, 100000)
+	n := c.N(3000, 150000)
+	vals := []any{1, "x", []int{1, 2}, map[string]int{"a": 1}, c19Bad{}, struct{ A c19Bad }{}, nil, make(chan int),
+		c19Tagged{N: 1}, &c19Tagged{N: 2}, c19TaggedLast{A: 1}, c19TaggedNested{X: []c19Tagged{{N: 1}}}, c19TaggedNested{M: map[string]c19Tagged{"k": {N: 1}}},
+		c19FormatTagged{D: []byte("x")}, []any{c19Tagged{N: 3}}, map[string]any{"t": c19TaggedLast{}}}
+	type decCase struct {
+		in  string
+		tgt func() any
+	}
+	decs := []decCase{
+		{`1`, func() any { return new(any) }}, {`"x"`, func() any { return new(any) }}, {`[1,2]`, func() any { return new(any) }},
+		{`{"a":1}`, func() any { return new(struct{ A int }) }}, {`{"a":`, func() any { return new(any) }}, {`tru`, func() any { return new(any) }},
+		{``, func() any { return new(any) }}, {`{"A":"x"}`, func() any { return new(struct{ A int }) }},
+		{`{"n":"1","f":"x","s":"t"}`, func() any { return new(c19UnmTagged) }}, {`{"n":"1","f":"2.5","s":3}`, func() any { return new(c19UnmTagged) }},
+		{`{"n":1}`, func() any { return new(c19UnmTagged) }}, {`{"m":1,"n":"1"}`, func() any { return new(c19EmbedNil) }},
+		{`{"n":"1","q":2,"m":3}`, func() any { return new(c19EmbedNil) }}, {`[{"n":"1","f":"y"}]`, func() any { return new([]c19UnmTagged) }},
+		{`{"k":{"n":"x"}}`, func() any { return new(map[string]c19UnmTagged) }}, {`{"n":"1","f":"2"}`, func() any { return new(c19UnmTagged) }},
+	}
 	for i := 0; i < n; i++ {
 		// coder's own options
 		var own, call []json.Options
@@ -510,12 +559,13 @@ func c19Scoped(c *Ctx) {
 			own = append(own, ct.mk())
 			desc = append(desc, "own:"+ct.name+"("+ct.arg+")")
 		}
-		for k := 1 + c.Rng.IntN(3); k > 0; k-- {
+		// 0..3 call options: with none, the arshal call works directly on the coder's option struct
+		for k := c.Rng.IntN(4); k > 0; k-- {
 			ct := ctors[c.Rng.IntN(len(ctors))]
 			call = append(call, ct.mk())
 			desc = append(desc, "call:"+ct.name+"("+ct.arg+")")
 		}
-		var vals = []any{1, "x", []int{1, 2}, map[string]int{"a": 1}, c19Bad{}, struct{ A c19Bad }{}, nil, make(chan int)}
+		c.Hit(fmt.Sprintf("scoped-call-options=%d", len(call)))
 		v := vals[c.Rng.IntN(len(vals))]
 		var buf bytes.Buffer
 		enc := jsontext.NewEncoder(&buf, own...)
@@ -533,22 +583,17 @@ func c19Scoped(c *Ctx) {
 		} else {
 			c.Hit("scoped-encode-ok")
 		}
-		ins := []string{`1`, `"x"`, `[1,2]`, `{"a":1}`, `{"a":`, `tru`, ``, `{"A":"x"}`}
-		in := ins[c.Rng.IntN(len(ins))]
+		dc := decs[c.Rng.IntN(len(decs))]
+		in := dc.in
 		dec := jsontext.NewDecoder(strings.NewReader(in), own...)
 		beforeD := c19StructStr(dec.Options().(*jsonopts.Struct))
-		var out struct{ A int }
-		var outAny any
-		var tgt any = &outAny
-		if c.Rng.IntN(2) == 0 {
-			tgt = &out
-		}
+		tgt := dc.tgt()
 		if p := guard(func() { err = json.UnmarshalDecode(dec, tgt, call...) }); p != nil {
 			c.Panic("UnmarshalDecode", []byte(in), p, map[string]any{"seq": strings.Join(desc, ",")})
 		}
 		afterD := c19StructStr(dec.Options().(*jsonopts.Struct))
 		if beforeD != afterD {
-			c.Violate("scoped-decode", "UnmarshalDecode", []byte(in), map[string]any{"seq": strings.Join(desc, ","), "before": beforeD, "after": afterD, "err": fmt.Sprint(err)})
+			c.Violate("scoped-decode", "UnmarshalDecode", []byte(in), map[string]any{"seq": strings.Join(desc, ","), "before": beforeD, "after": afterD, "err": fmt.Sprint(err), "target": fmt.Sprintf("%T", tgt)})
 		}
 		if err != nil {
 			c.Hit("scoped-decode-error")
